@@ -120,7 +120,10 @@ type c18Follower struct {
 	stream  []string
 }
 
-func (f *c18Follower) WriteString(l string) (int, error) { f.stream = append(f.stream, l); return len(l), nil }
+func (f *c18Follower) WriteString(l string) (int, error) {
+	f.stream = append(f.stream, l)
+	return len(l), nil
+}
 func (f *c18Follower) SetLines(ls []string) {
 	f.snap = append([]string(nil), ls...)
 	f.gotSnap = true
